@@ -123,10 +123,10 @@ func (p *parser) parseStmt() Stmt {
 		return p.parseDelete()
 	case p.isKw("call"):
 		p.next()
-		name := p.qualifiedName()
+		sch, name := p.qualifiedName2()
 		p.expectOp("(")
 		args := p.exprListUntil(")")
-		return &Call{Name: name, Args: args}
+		return &Call{Schema: sch, Name: name, Args: args}
 	case p.isKw("begin") || p.isKw("start"):
 		p.skipToEnd()
 		return &TxStmt{Kind: "begin"}
@@ -187,6 +187,16 @@ func (p *parser) skipToEnd() {
 		}
 		p.next()
 	}
+}
+
+// qualifiedName2 keeps the schema qualifier ("" when absent)
+func (p *parser) qualifiedName2() (string, string) {
+	sch, n := "", p.ident()
+	for p.acceptOp(".") {
+		sch = n
+		n = p.ident()
+	}
+	return sch, n
 }
 
 func (p *parser) qualifiedName() string {
@@ -306,7 +316,7 @@ func (p *parser) parseCreate() Stmt {
 		}
 		ci.Name = p.ident()
 		p.expectKw("on")
-		ci.Table = p.qualifiedName()
+		ci.Schema, ci.Table = p.qualifiedName2()
 		if p.acceptKw("using") {
 			p.ident()
 		}
